@@ -279,7 +279,6 @@ class Resolver(object):
 
     def expand_node(self, node, depth=6):
         """A deep copy of `node` with uniquely defined local names substituted."""
-        import copy
         res = self
 
         class T(ast.NodeTransformer):
@@ -289,7 +288,7 @@ class Resolver(object):
                     if d is not None:
                         return res.expand_node(d, depth - 1)
                 return n
-        return T().visit(copy.deepcopy(node))
+        return T().visit(clone(node))
 
     def expand(self, node):
         return norm(self.expand_node(node))
@@ -353,3 +352,19 @@ def less_than(test, polarity=True):
     if op == ">":
         return b, a, True
     return b, a, False
+
+
+def clone(node):
+    """Structural copy of an ast node that does not follow the `_parent` back links."""
+    if isinstance(node, ast.AST):
+        new = type(node)()
+        for f in node._fields:
+            if hasattr(node, f):
+                setattr(new, f, clone(getattr(node, f)))
+        for a in ("lineno", "col_offset", "end_lineno", "end_col_offset"):
+            if hasattr(node, a):
+                setattr(new, a, getattr(node, a))
+        return new
+    if isinstance(node, list):
+        return [clone(x) for x in node]
+    return node
